@@ -394,6 +394,31 @@ class FitFailureStatus:
 from pyvc.numeric import NumericJob as _NumericJob
 
 
+def _dense_reference(t, nord, x, y, w):
+    """weighted least squares on the knot vector t with scipy's B-spline basis; (points inside the base interval, fitted values) or None if ill-conditioned"""
+    from scipy.interpolate import BSpline
+    k = nord - 1
+    if t.size < 2 * nord:
+        return None
+    inside = (x >= t[k]) & (x <= t[-k - 1])
+    if inside.sum() == 0:
+        return None
+    try:
+        D = BSpline.design_matrix(x[inside], t, k).toarray()
+    except Exception:
+        return None
+    sw = np.sqrt(w[inside])
+    A_ = D * sw[:, None]
+    used = np.abs(A_).sum(axis=0) > 0
+    if used.sum() == 0 or np.linalg.cond(A_[:, used]) > 1e5:
+        return None
+    cf = np.zeros(D.shape[1])
+    cf[used] = np.linalg.lstsq(A_[:, used], y[inside] * sw, rcond=None)[0]
+    yref = np.full(x.shape, np.nan)
+    yref[inside] = D @ cf
+    return inside, yref
+
+
 @register("C09")
 class FitRetryProtocol(_NumericJob):
     name = "fit_retry_protocol"
@@ -455,6 +480,29 @@ class FitRetryProtocol(_NumericJob):
                     yv, mk = s.value(x)
                     if not np.allclose(yv[mk], yfit[mk], rtol=1e-8, atol=1e-8):
                         bad.append(("success_means_finite_fit_and_solved_normal_equations", "yfit differs from value() of the stored coefficients by %g" % np.abs(yv[mk] - yfit[mk]).max()))
+                    # independent dense weighted least squares on the breakpoints that are still in use (scipy's B-spline basis)
+                    ref = _dense_reference(s.breakpoints[s.mask], c["nord"], x, y, w)
+                    if ref is not None:
+                        inside, yref = ref
+                        sel = inside & (w > 0)
+                        if sel.any() and not np.allclose(yfit[sel], yref[sel], rtol=1e-5, atol=1e-5 * max(1.0, np.abs(y).max())):      # normal equations in double precision, conditioning <= 1e5
+                            bad.append(("success_means_finite_fit_and_solved_normal_equations", "after statuses %s the fit differs from the dense weighted least-squares "
+                                        "solution on the breakpoints in use by %g" % (statuses, np.abs(yfit[sel] - yref[sel]).max())))
+                    # the same object fitted again to other abscissae (same number of points, same end points): no memory of the earlier call
+                    if x.size > 4 and (w > 0).sum() > 2 * c["nord"]:
+                        x2 = x.copy()
+                        x2[1:-1] = np.sort(x[0] + (x[-1] - x[0]) * np.sort(np.random.RandomState(c["inp"]["rep"]).uniform(0.02, 0.98, x.size - 2)))
+                        y2 = np.cos(x2)
+                        st2, yfit2 = s.fit(x2, y2, w)
+                        fresh = bspline(x, nord=c["nord"], nbkpts=c["nbk"])
+                        fresh.mask = s.mask.copy() if st2 == 0 else fresh.mask
+                        if st2 == 0:
+                            fresh2 = bspline(x, nord=c["nord"], nbkpts=c["nbk"])
+                            fresh2.mask[:] = s.mask
+                            st3, yfit3 = fresh2.fit(x2, y2, w)
+                            if st3 == 0 and not (np.allclose(yfit2, yfit3, rtol=1e-9, atol=1e-9) and np.allclose(s.coeff, fresh2.coeff, rtol=1e-9, atol=1e-9)):
+                                bad.append(("success_means_finite_fit_and_solved_normal_equations", "a second fit on the same object (other abscissae) differs from the fit of a fresh "
+                                            "object with the same knots and mask by %g" % np.abs(yfit2 - yfit3).max()))
             # the driver that performs the retries itself
             try:
                 sset, outmask = iterfit(x, y, invvar=w, nord=c["nord"], nbkpts=c["nbk"], maxiter=5)
